@@ -838,6 +838,24 @@ func (e *Engine) resolveStructInvs() error {
 		for _, f := range si.Established {
 			allowed[f] = true
 		}
+		// the type must not occur as a by-value field of another struct: such
+		// instances are never "returned by a constructor", so nothing would prove
+		// the invariant for them (declare it on the containing type instead)
+		for _, n := range si.Pkg.Scope().Names() {
+			tn, ok := si.Pkg.Scope().Lookup(n).(*types.TypeName)
+			if !ok {
+				continue
+			}
+			st, ok := tn.Type().Underlying().(*types.Struct)
+			if !ok {
+				continue
+			}
+			for i := 0; i < st.NumFields(); i++ {
+				if types.Identical(st.Field(i).Type(), si.rootType) {
+					return fmt.Errorf("structinv %s: the type is a by-value field of %s; state the invariant on %s", si.TypeName, tn.Name(), tn.Name())
+				}
+			}
+		}
 		// every establishing function is verified (it must be under a non-trusted contract)
 		for _, f := range si.Established {
 			found := false
